@@ -141,10 +141,16 @@ Http::ContentLengthInterpreter::checkList(const String &list)
     const char *pos = nullptr;
     const char *item = nullptr;;
     int ilen = -1;
+    bool sawElement = false;
     while (strListGetItem(&list, ',', &item, &ilen, &pos)) {
+        sawElement = true;
         if (!checkValue(item, ilen) && sawBad)
             break;
         // keep going after a duplicate value to find conflicting ones
+    }
+    if (!sawElement) {
+        debugs(55, debugLevel, "WARNING: No value in list-like" << Raw("Content-Length", list.rawBuf(), list.size()));
+        sawBad = true;
     }
     return false; // no need to keep this list field; it will be sanitized away
 }
